@@ -320,6 +320,28 @@ class PartitionLoop:
                            f"loop-invariant:partition/{'hits' if name == h else 'misses'}-elements", qfacts=True)
 
 
+class StepSearchLoop:
+    """NAryExpression._take_reduction_step, the loop that looks for the first operand that is not
+    fully reduced: every operand before position j carries the flag."""
+    def element(self, I, sl, j):
+        return sl.elem(j)
+
+    def _flag(self, I, sl, t):
+        return sl.family.frF(t)
+
+    def on_entry(self, I, env, sl, st):
+        pass                                    # nothing is claimed about zero operands
+
+    def assume_at(self, I, env, sl, st, j):
+        qm(I).foralls.append((j, lambda t: self._flag(I, sl, t)))
+        I.ghost.setdefault("all_flagged_before", []).append(j)
+
+    def check_at(self, I, env, sl, st, j1):
+        s = z3.Int(I.path.fresh_name("s!flagged"))
+        qm(I).add_index(s, sl.length)
+        I.path.require(z3.Implies(z3.And(s >= 0, s < j1), self._flag(I, sl, s)), "loop-invariant:step/operands-so-far-flagged", qfacts=True)
+
+
 REGISTRY = {
     ("math_functions.multiply", 0): MultiplyLoop(),
     ("Add._compute_numeric_partials", 0): AccumulateLoop(),
@@ -327,4 +349,5 @@ REGISTRY = {
     ("Multiply._compute_numeric_partials", 0): MultiplyAccumulateLoop(),
     ("Multiply._compute_synthetic_partials", 0): MultiplySynthAccumulateLoop(),
     ("utilities.partition_by_predicate", 0): PartitionLoop(),
+    ("NAryExpression._take_reduction_step", 0): StepSearchLoop(),
 }
